@@ -19,6 +19,7 @@ Events (same text as the model driver's input):
   T<c>,<serial>       wait until c got the NoReply error for that call (reply_timeout configured)
   E<c>,<tag>          signal that rule <tag> selects
   M<c>,<size>         message to the driver of exactly <size> bytes (reported to the model as its first 16 bytes)
+  G<7 limits>         rewrite the configuration file with these limits and call ReloadConfig
   Q<hex>              probe ListQueuedOwners         N   probe ListNames       S  (model only)
 
 Synchronisation is by round trips only: after an event every live connection does a
@@ -75,6 +76,7 @@ def message_of_size(serial, size):
 
 class Session:
     def __init__(self, daemon_exe, limits, reply_timeout=None):
+        self.reply_timeout = reply_timeout
         self.d = rawbus.Daemon(daemon_exe, policy=POLICY, limits=limits_xml(limits, reply_timeout))
         os.chmod(self.d.dir, 0o755)
         self.clients = []          # index -> RawConn or None (closed)
@@ -280,6 +282,16 @@ class Session:
             return ["n=" + "+".join(sorted("B" if x == BUS else self.key(x) for x in r.body[0]))]
         if kind == "S":
             return ["*"]
+        if kind == "G":
+            limits = [int(x) for x in parts]
+            conf = rawbus.SESSION_CONF % {"type": "session", "sock": self.d.sock, "policy": POLICY,
+                                          "limits": limits_xml(limits, self.reply_timeout), "servicedirs": "", "auth": ""}
+            with open(self.d.conf, "w") as f:
+                f.write(conf)
+            r = self.control().call("ReloadConfig")
+            if r is None or r.mtype != METHOD_RETURN:
+                raise Broken("ReloadConfig failed: %r" % (r,))
+            return self.collect(None, None, kind)
         actor = int(parts[0])
         c = self.clients[actor] if actor < len(self.clients) else None
         if c is None:
